@@ -315,7 +315,13 @@ impl Memfs {
 
         // Validate the path itself
         if let Some(x) = guard.get_entry(&path) {
-            if entry.is_file() && !x.is_file() {
+            if !entry.is_symlink() && x.is_symlink() {
+                // an existing link is neither a file nor a directory (link exclusion)
+                if entry.is_file() {
+                    return Err(PathError::is_not_file(&path).into());
+                }
+                return Err(PathError::is_not_dir(&path).into());
+            } else if entry.is_file() && !x.is_file() {
                 return Err(PathError::is_not_file(&path).into());
             } else if entry.is_symlink() && !x.is_symlink() {
                 return Err(PathError::is_not_symlink(&path).into());
